@@ -24,7 +24,14 @@ func c15Concurrent(r *ev.Run) int64 {
 		ref[o.String()] = s
 	}
 	var execs int64
-	bodies := c14Bodies(2, fs)
+	// bodies: every single operation, and the three two-operation bodies that chain different names
+	// (quick); all nine two-operation bodies in the thorough tier
+	bodies := c14Bodies(1, fs)
+	if r.Thorough() {
+		bodies = c14Bodies(2, fs)
+	} else {
+		bodies = append(bodies, []c14Op{fs[0], fs[1]}, []c14Op{fs[1], fs[2]}, []c14Op{fs[2], fs[0]})
+	}
 	for i := range bodies {
 		for j := i; j < len(bodies); j++ {
 			n, _ := c14Explore(r, c14Scenario{Bodies: [][]c14Op{bodies[i], bodies[j]}, Start: 1}, ref, nil)
@@ -39,7 +46,7 @@ func c15Concurrent(r *ev.Run) int64 {
 			}
 		}
 	}
-	r.Completed(fmt.Sprintf("(d) 2 threads x all unordered pairs of bodies of <= 2 lookup-and-overwrite operations over 3 names, 3 threads x all multisets of single operations: all interleavings (%d schedules)", execs))
+	r.Completed(fmt.Sprintf("(d) 2 threads x all unordered pairs of %d bodies of <= 2 lookup-and-overwrite operations over 3 names, 3 threads x all multisets of single operations: all interleavings (%d schedules)", len(bodies), execs))
 	r.Set("concurrent_schedules", execs)
 	racePass(r, "C14")
 	return execs
